@@ -55,11 +55,12 @@ def occurrences(m, d):
 def refs_for(m, d, layout):
     """reference datetimes enumerated for one stated day"""
     rs = []
-    if CFG['tier'] == 'thorough':
+    if CFG['tier'] == 'thorough' and layout == 'Mon d':
+        # every reference day of the 8 years (2,922 days) at a time of day that rotates with the day
         x = date(YEARS[0], 1, 1)
         while x.year <= YEARS[-1]:
-            rs.append(datetime(x.year, x.month, x.day, 12, 0, 0))
-            rs.append(datetime(x.year, x.month, x.day, 0, 0, 0))
+            h = (0, 12, 23)[x.toordinal() % 3]
+            rs.append(datetime(x.year, x.month, x.day, h, 0 if h != 23 else 59, 0 if h != 23 else 59))
             x += timedelta(days=1)
         return rs
     occ = [o for o in occurrences(m, d) if o.year in YEARS]
